@@ -1135,6 +1135,22 @@ package geom
 //@   requires len(a) == 0
 //@   ensures pcRegion(a) == rNone() && (forall x int :: rCat(rNone(), x) == x)
 
+//@ axiom region_xor_apart(a polyclip.Polygon, b polyclip.Polygon)
+//@   trusted A-REGION: operands one of which is empty, or whose bounding rectangles do not overlap, have disjoint regions, and the symmetric difference of disjoint regions is their union
+//@   requires len(a) == 0 || len(b) == 0 || !pcOverlaps(pcBB(a), pcBB(b))
+//@   ensures pcOp(polyclip.XOR, pcRegion(a), pcRegion(b)) == pcOp(polyclip.UNION, pcRegion(a), pcRegion(b))
+
+// trivialXOr: the operation handed to the clipper denotes the same region as the requested one
+// and is never XOR in the cases for which the clipper's contract promises nothing.
+//@ func trivialXOr
+//@   prop C01, C14
+//@   mode ufloat
+//@   ensures [same_region] pcOp(result, pcRegion(subject), pcRegion(clipping)) == pcOp(op, pcRegion(subject), pcRegion(clipping))
+//@   using region_xor_apart(subject, clipping)
+//@   ensures [clipper_defined] !(result == polyclip.XOR && (len(subject) == 0 || len(clipping) == 0 || !pcOverlaps(pcBB(subject), pcBB(clipping))))
+//@   ensures [others_untouched] op != polyclip.XOR ==> result == op
+//@   modifies nothing
+
 //@ func (p Polygon) op
 //@   prop C01, C14
 //@   mode ufloat
